@@ -65,11 +65,18 @@ func (r Regime) Validate() error {
 func (r Regime) JSONSchemaExtend(js *jsonschema.Schema) {
 	props := js.Properties
 	if asl, ok := props.Get("$regime"); ok {
-		asl.OneOf = make([]*jsonschema.Schema, len(AllRegimeDefs()))
-		for i, rd := range AllRegimeDefs() {
-			asl.OneOf[i] = &jsonschema.Schema{
+		asl.OneOf = make([]*jsonschema.Schema, 0, len(AllRegimeDefs()))
+		for _, rd := range AllRegimeDefs() {
+			asl.OneOf = append(asl.OneOf, &jsonschema.Schema{
 				Const: rd.Code().String(),
 				Title: rd.Name.String(),
+			})
+			// alternative codes are accepted by the regime lookup too
+			for _, cc := range rd.AltCountryCodes {
+				asl.OneOf = append(asl.OneOf, &jsonschema.Schema{
+					Const: cc.String(),
+					Title: rd.Name.String(),
+				})
 			}
 		}
 	}
